@@ -167,6 +167,28 @@ def check(ctx, prefixes=SCOPE_PREFIXES, P="C11", ids=None):
         from .common_domains import name_alias_domains_rule
         name_alias_domains_rule(ctx, "C11.R9", ("apischema.deserialization", "apischema.serialization", "apischema.json_schema", "apischema.graphql", "apischema.validation", "apischema.objects", "apischema.discriminators", "apischema.dependencies"))
 
+    if P == "C11":
+        ctx.rule("C11.R10", "schema generation serializes (the schema itself, embedded default values) with its own options: the aliaser of the call reaches every key (default values are serialized with the deferred aliaser AliasedStr) and the user's global pass-through setting is not inherited (it would return AliasedStr keys and nested schemas as they are)", floor=3)
+        n10 = 0
+        for fi in model.funcs_in_module("apischema.json_schema.schema"):
+            for c in walk_no_nested(fi.node):
+                if not (isinstance(c, ast.Call) and dotted(c.func) == "serialize"):
+                    continue
+                n10 += 1
+                kws = {k.arg: k.value for k in c.keywords}
+                is_schema = bool(c.args) and norm(c.args[0]) == "JsonSchema"
+                pt = kws.get("pass_through")
+                ctx.check(pt is not None and norm(pt) == "PassThroughOptions()", "C11.R10", f"{fi.qualname}:serialize({norm(c.args[0]) if c.args else '?'}):pass_through", None,
+                          f"`{short(c, 60)}` inherits settings.serialization.pass_through: with PassThroughOptions(any=True) the Any method is the identity, property names (AliasedStr) are not aliased and nested schemas are not converted to the requested dialect",
+                          fi, c, detail="pass_through=PassThroughOptions()")
+                al = kws.get("aliaser")
+                want = "aliaser" if is_schema else "AliasedStr"
+                ctx.check(al is not None and norm(al) == want, "C11.R10", f"{fi.qualname}:serialize({norm(c.args[0]) if c.args else '?'}):aliaser", None,
+                          (f"`{short(c, 60)}` does not apply the aliaser of the call" if is_schema else
+                           f"`{short(c, 60)}`: the default value embedded in the schema is serialized with the global aliaser, not the one of the call: `default: {{'foo_bar': 0}}` next to `properties: {{'fooBar': ...}}` under aliaser=to_camel_case"),
+                          fi, c, detail=f"aliaser={want}")
+        ctx.require(n10 >= 3, f"serialize() calls of the schema generators: {n10} found")
+
     # ---------------- R2: sinks
     ctx.rule(ids["R2"], "every external-key sink receives the alias aliased exactly once", floor=12 if P == "C11" else 3)
     if P == "C11":
@@ -437,6 +459,8 @@ def fixtures(ctx):
 
 
 def mutants(mb):
+    mb.add_text("schema-inherits-pass-through", "apischema/json_schema/schema.py", "        # the schema must not depend on the serialization settings of the user\n        pass_through=PassThroughOptions(),\n", "", "C11.R10", "pass_through")
+    mb.add_text("schema-default-global-aliaser", "apischema/json_schema/schema.py", "                    # keys are aliased with the rest of the schema\n                    aliaser=AliasedStr,\n", "", "C11.R10", "aliaser")
     mb.add_text("resolver-field-after-optional", "apischema/graphql/resolvers.py", "        param_type = types[param.name]\n        if is_union_of(param_type, graphql.GraphQLResolveInfo):\n            info_parameter = param.name\n        else:\n",
                 "        param_type = types[param.name]\n        if is_union_of(param_type, graphql.GraphQLResolveInfo):\n            info_parameter = param.name\n        else:\n            if param.default is None:\n                param_type = Optional[param_type]\n", "C11.R8", "resolver_resolve")
     mb.add_text("validator-alias-of-owner", "apischema/validation/validators.py", "            alias = getattr(get_alias(obj), get_field_name(validator.field))\n", "            alias = getattr(get_alias(validator.owner), get_field_name(validator.field))\n", "C11.R2", "alias-of-validated-class")
